@@ -95,7 +95,9 @@ type ProgCounters struct {
 }
 
 type Counters struct {
-	Lines int64          `json:"lines"`
+	Lines    int64          `json:"lines"`
+	RawLines int64          `json:"raw_lines"`
+	Sent     int64          `json:"sent"`
 	Progs []ProgCounters `json:"progs"`
 }
 
@@ -120,6 +122,7 @@ type RT struct {
 	base     map[string]map[string]int64
 	baseLine int64
 	Sent     int64 // lines pushed into the runtime's channel (incl. barrier lines)
+	SyncSent int64 // of which barrier lines
 	progs    map[string]bool
 }
 
@@ -197,6 +200,7 @@ func (rt *RT) Line(s string) {
 	rt.push(s)
 	rt.push(SyncLine)
 	rt.push(SyncLine)
+	rt.SyncSent += 2
 }
 
 func (rt *RT) Load(name, text string) error {
@@ -303,7 +307,14 @@ func (rt *RT) Snapshot(withCounters bool) Snap {
 }
 
 func (rt *RT) CountersNow() *Counters {
-	c := &Counters{Lines: readInt("lines_total") - rt.baseLine}
+	// the fan-out loop counts a line just after taking it from the channel:
+	// give it a moment to count the last barrier line
+	for i := 0; i < 2000 && readInt("lines_total")-rt.baseLine < rt.Sent; i++ {
+		time.Sleep(time.Millisecond)
+	}
+	// Lines: lines_total minus the barrier lines the driver itself pushed (the
+	// exact total is checked against Sent by the C25 oracle)
+	c := &Counters{Lines: readInt("lines_total") - rt.baseLine - rt.SyncSent, RawLines: readInt("lines_total") - rt.baseLine, Sent: rt.Sent}
 	cur := map[string]map[string]int64{}
 	keys := map[string]bool{}
 	for _, n := range expMaps {
@@ -351,8 +362,68 @@ func CompileDecls(name, text string) ([]DeclObs, bool) {
 
 // ---- Coq printing ----
 
+// Header is the first line(s) of a case file importing the given Corr module.
+func Header(corr string) string {
+	return "From V Require Import Corr." + corr + ".\nFrom Coq Require Import String."
+}
+
+// B renders a byte string; plain printable ASCII goes through the `bs`
+// conversion of Corr/LoaderRun.v (a string literal elaborates far faster than
+// a list of numbers).
+func B(s string) string {
+	return share("s", rawB(s))
+}
+
+// interning: within one case every distinct byte string and declaration is
+// bound once by a `let` in front of the case term.
+type interner struct {
+	names map[string]string
+	defs  []string
+}
+
+var cur *interner
+
+func share(prefix, term string) string {
+	if cur == nil {
+		return term
+	}
+	if n, ok := cur.names[term]; ok {
+		return n
+	}
+	n := fmt.Sprintf("%s%d", prefix, len(cur.defs))
+	cur.names[term] = n
+	cur.defs = append(cur.defs, "let "+n+" := "+term+" in ")
+	return n
+}
+
+// WithSharing renders a term with f and wraps it in the shared bindings.
+func WithSharing(f func() string) string {
+	cur = &interner{names: map[string]string{}}
+	body := f()
+	defs := strings.Join(cur.defs, "\n")
+	cur = nil
+	return "(" + defs + "\n" + body + ")"
+}
+
+func rawB(s string) string {
+	for i := 0; i < len(s); i++ {
+		if s[i] < 32 || s[i] > 126 || s[i] == '"' {
+			return vlib.Bytes(s)
+		}
+	}
+	return "(bs \"" + s + "\"%string)"
+}
+
+func T(ls []string) string {
+	xs := make([]string, len(ls))
+	for i, l := range ls {
+		xs[i] = B(l)
+	}
+	return vlib.List(xs)
+}
+
 func CoqDecl(d DeclObs) string {
-	return vlib.App("mkdecl", vlib.Bytes(d.Name), strconv.Itoa(d.Kind), strconv.Itoa(d.Type), vlib.Tuple(d.Keys), vlib.Bytes(d.Source), vlib.Bool(d.Hidden))
+	return share("d", vlib.App("mkdecl", B(d.Name), strconv.Itoa(d.Kind), strconv.Itoa(d.Type), T(d.Keys), B(d.Source), vlib.Bool(d.Hidden)))
 }
 
 func coqDval(ty string, i int64, bits uint64) string {
@@ -365,7 +436,7 @@ func coqDval(ty string, i int64, bits uint64) string {
 func coqLVs(l []LV) string {
 	xs := make([]string, len(l))
 	for i, x := range l {
-		xs[i] = vlib.App("mkolv", vlib.Tuple(x.Ls), coqDval(x.Ty, x.I, x.Bits), vlib.Z(int64(x.T)), vlib.Z(x.Exp))
+		xs[i] = vlib.App("mkolv", T(x.Ls), coqDval(x.Ty, x.I, x.Bits), vlib.Z(int64(x.T)), vlib.Z(x.Exp))
 	}
 	return vlib.List(xs)
 }
@@ -379,9 +450,9 @@ func CoqSnap(s Snap) string {
 			if m.VMIdx >= 0 {
 				idx = vlib.Some(vlib.Nat(m.VMIdx))
 			}
-			ms[j] = vlib.App("mkom", vlib.Bytes(m.Prog), CoqDecl(m.Decl), idx, coqLVs(m.LVs))
+			ms[j] = vlib.App("mkom", B(m.Prog), CoqDecl(m.Decl), idx, coqLVs(m.LVs))
 		}
-		st[i] = "(" + vlib.Bytes(nm.Name) + ", " + vlib.List(ms) + ")"
+		st[i] = "(" + B(nm.Name) + ", " + vlib.List(ms) + ")"
 	}
 	hs := make([]string, len(s.Handles))
 	for i, h := range s.Handles {
@@ -393,13 +464,13 @@ func CoqSnap(s Snap) string {
 		if src < 0 {
 			src = 999999
 		}
-		hs[i] = vlib.App("mkoh", vlib.Bytes(h.Prog), strconv.Itoa(src), vlib.List(ms))
+		hs[i] = vlib.App("mkoh", B(h.Prog), strconv.Itoa(src), vlib.List(ms))
 	}
 	cs := "None"
 	if s.Counters != nil {
 		ps := make([]string, len(s.Counters.Progs))
 		for i, p := range s.Counters.Progs {
-			ps[i] = fmt.Sprintf("(%s, (%d, %d, %d, %d))", vlib.Bytes(p.Prog), p.Loads, p.Errs, p.Unloads, p.RtErrs)
+			ps[i] = fmt.Sprintf("(%s, (%d, %d, %d, %d))", B(p.Prog), p.Loads, p.Errs, p.Unloads, p.RtErrs)
 		}
 		cs = vlib.Some(vlib.App("mkoc", strconv.FormatInt(s.Counters.Lines, 10), vlib.List(ps)))
 	}
@@ -410,15 +481,15 @@ func CoqEffect(e Effect) string {
 	m := vlib.Nat(e.M)
 	switch e.Op {
 	case "inc":
-		return vlib.App("EInc", m, vlib.Tuple(e.Ls), vlib.Z(1))
+		return vlib.App("EInc", m, T(e.Ls), vlib.Z(1))
 	case "set":
-		return vlib.App("ESet", m, vlib.Tuple(e.Ls), vlib.App("DInt", vlib.Z(e.Val)))
+		return vlib.App("ESet", m, T(e.Ls), vlib.App("DInt", vlib.Z(e.Val)))
 	case "setf":
-		return vlib.App("ESet", m, vlib.Tuple(e.Ls), vlib.App("DFloat", vlib.N(e.Bits)))
+		return vlib.App("ESet", m, T(e.Ls), vlib.App("DFloat", vlib.N(e.Bits)))
 	case "del":
-		return vlib.App("EDel", m, vlib.Tuple(e.Ls))
+		return vlib.App("EDel", m, T(e.Ls))
 	case "expire":
-		return vlib.App("EExpire", m, vlib.Tuple(e.Ls), vlib.Z(e.Dur))
+		return vlib.App("EExpire", m, T(e.Ls), vlib.Z(e.Dur))
 	}
 	panic("effect " + e.Op)
 }
